@@ -343,6 +343,177 @@ fn run(ctx: &mut Ctx) {
 }
 
 fn replay(_sub: &str, case: &Json) -> Option<CaseResult> {
+    if let Some(raw) = case.get("raw") {
+        let c: RawCase = serde_json::from_value(raw.clone()).ok()?;
+        return Some(check_raw(&c));
+    }
     let c: Case = serde_json::from_value(case.get("case")?.clone()).ok()?;
+    Some(check_case(&c))
+}
+
+// ------------------------------------------------------------------ model-free span check
+
+#[derive(Clone, Debug, Serialize, Deserialize, Hash)]
+pub struct RawCase {
+    pub input: Vec<u8>,
+    pub q: usize,
+}
+
+struct RawWalk<'t> {
+    input: &'t [u8],
+    q: QOpt,
+    src: &'static str,
+    nodes: usize,
+}
+
+impl<'t> RawWalk<'t> {
+    fn check(&mut self, r: Ref<'_>, parent: Option<(usize, usize)>, prev_end: Option<usize>) -> Result<usize, (String, String)> {
+        self.nodes += 1;
+        let kind = MV::from_value(r.value()).kind();
+        let (s, e) = span_of(r.span());
+        let lines = 1 + self.input.iter().filter(|b| **b == b'\n').count();
+        if s.0 < 1 || e.0 > lines || s.0 > e.0 {
+            return Err((format!("raw src={} node={} which=outside-input", self.src, kind), format!("span {:?}..{:?} outside the {} lines of the input", s, e, lines)));
+        }
+        let so = offset_of(self.input, s.0, s.1);
+        let eo = offset_of(self.input, e.0, e.1);
+        if eo > self.input.len() || line_len(self.input, s.0) < s.1 || line_len(self.input, e.0) < e.1 {
+            return Err((format!("raw src={} node={} which=outside-input", self.src, kind), format!("span {:?}..{:?} runs past the end of its line or of the input", s, e)));
+        }
+        if eo <= so {
+            return Err((format!("raw src={} node={} which=empty", self.src, kind), format!("empty or inverted span {:?}..{:?}", s, e)));
+        }
+        if let Some((ps, pe)) = parent {
+            if so < ps || eo > pe {
+                return Err((format!("raw src={} node={} which=containment", self.src, kind), format!("span {}..{} not inside its parent {}..{}", so, eo, ps, pe)));
+            }
+        }
+        if let Some(pe) = prev_end {
+            if so < pe {
+                return Err((format!("raw src={} node={} which=order", self.src, kind), format!("span starts at {} before its preceding sibling ends at {}", so, pe)));
+            }
+        }
+        let piece = &self.input[so..eo];
+        let children = ref_children(&r);
+        // a quote shorthand: the list starts with the shorthand characters and
+        // its head is the corresponding symbol
+        let shorthand = match piece {
+            [b',', b'@', ..] => Some((",@", "unquote-splicing")),
+            [b'\'', ..] => Some(("'", "quote")),
+            [b'`', ..] => Some(("`", "quasiquote")),
+            [b',', ..] => Some((",", "unquote")),
+            _ => None,
+        };
+        // the head of a quote shorthand (in any position: `(a . 'b)` is the
+        // list (a quote b)) covers just the shorthand characters
+        let is_shorthand_head = match (r.value().as_symbol(), piece) {
+            (Some("quote"), b"'") | (Some("quasiquote"), b"`") | (Some("unquote"), b",") | (Some("unquote-splicing"), b",@") => true,
+            _ => false,
+        };
+        if is_shorthand_head {
+            return Ok(eo);
+        }
+        match lexpr::from_slice_custom(piece, self.q.to_lexpr()) {
+            Ok(v) if MV::from_value(&v) == MV::from_value(r.value()) => {}
+            other => {
+                return Err((
+                    format!("raw src={} node={} which=reparse", self.src, kind),
+                    format!("text {:?} covered by the span re-parses to {} but the sub-datum is {}", bytes_lossy(piece), short(&other), short(r.value())),
+                ))
+            }
+        }
+        let mut prev = None;
+        for (i, c) in children.into_iter().enumerate() {
+            if i == 0 {
+                if let Some((chars, name)) = shorthand {
+                    if c.value().as_symbol() == Some(name) {
+                        let (cs, ce) = span_of(c.span());
+                        let (cso, ceo) = (offset_of(self.input, cs.0, cs.1), offset_of(self.input, ce.0, ce.1));
+                        if cso != so || ceo != so + chars.len() {
+                            return Err((
+                                format!("raw src={} node=quote-shorthand which=head-text", self.src),
+                                format!("the head of the shorthand {:?} spans bytes {}..{}, the shorthand characters are at {}..{}", bytes_lossy(piece), cso, ceo, so, so + chars.len()),
+                            ));
+                        }
+                        self.nodes += 1;
+                        prev = Some(ceo);
+                        continue;
+                    }
+                }
+            }
+            prev = Some(self.check(c, Some((so, eo)), prev)?);
+        }
+        Ok(eo)
+    }
+}
+
+fn line_len(input: &[u8], line: usize) -> usize {
+    input.split(|b| *b == b'\n').nth(line - 1).map_or(0, |l| l.len())
+}
+
+/// The clauses of C11 that need no layout model, on any input: every datum of
+/// the stream, from every source kind.
+pub fn check_raw(c: &RawCase) -> CaseResult {
+    let q = QOpt::from_index(c.q);
+    let case = || json!({"raw": c});
+    let fail = |sig: String, msg: String| Failure::new(format!("C11 {}", sig), format!("{} [input {:?}, parser options #{}]", msg, bytes_lossy(&c.input), c.q), case());
+    let input = &c.input[..];
+    let r = catch(|| -> Result<usize, (String, String)> {
+        let opts = q.to_lexpr();
+        let mut reference: Option<Vec<(Pos, Pos)>> = None;
+        let mut nodes = 0usize;
+        for src in ["str", "slice", "reader", "bufreader"] {
+            let mut flat: Vec<(Pos, Pos)> = Vec::new();
+            let mut w = RawWalk { input, q, src, nodes: 0 };
+            macro_rules! walk {
+                ($p:expr) => {{
+                    let mut p = $p;
+                    let mut prev_end: Option<usize> = None;
+                    for _ in 0..input.len() + 2 {
+                        match p.next_datum() {
+                            Ok(Some(d)) => {
+                                prev_end = Some(w.check(d.as_ref(), None, prev_end)?);
+                                flat_spans(d.as_ref(), &mut flat);
+                            }
+                            _ => break,
+                        }
+                    }
+                }};
+            }
+            match src {
+                "str" => match std::str::from_utf8(input) {
+                    Ok(s) => walk!(lexpr::Parser::from_str_custom(s, opts)),
+                    Err(_) => continue,
+                },
+                "slice" => walk!(lexpr::Parser::from_slice_custom(input, opts)),
+                "reader" => walk!(lexpr::Parser::from_reader_custom(Cursor::new(input), opts)),
+                _ => walk!(lexpr::Parser::from_reader_custom(BufReader::with_capacity(3, Cursor::new(input)), opts)),
+            }
+            nodes = nodes.max(w.nodes);
+            match &reference {
+                None => reference = Some(flat),
+                Some(rf) if *rf != flat => return Err((format!("raw src={} which=differs-between-sources", src), "the spans of the datums read before the first error differ between source kinds".into())),
+                _ => {}
+            }
+        }
+        Ok(nodes)
+    });
+    match r {
+        Err(pm) => Err(fail(format!("raw panic={}", panic_sig(&pm)), format!("panicked: {}", pm))),
+        Ok(Err((sig, msg))) => Err(fail(sig, msg)),
+        Ok(Ok(nodes)) => Ok(Eval::new(nodes > 1, mix(digest_of(&c.input), c.q as u64)).class("raw:checked").class(if nodes > 1 { "raw:sub-datums" } else { "raw:flat" })),
+    }
+}
+
+/// libFuzzer entry: raw bytes (mode even) or a generated layout.
+pub fn fuzz(f: &mut FuzzIn) -> Option<CaseResult> {
+    if f.mode % 2 == 0 {
+        let (q, input) = f.raw_q_input();
+        if input.len() > 300 {
+            return None;
+        }
+        return Some(check_raw(&RawCase { input: input.to_vec(), q }));
+    }
+    let c = f.draw(&g_case(4, 30))?;
     Some(check_case(&c))
 }
